@@ -216,9 +216,9 @@ def correspondence(ctx):
         ["conform %s %s - 0 0 0" % (o.split()[0], xx.hex()) if o and not o.startswith(("err", "TIMEOUT")) else "bad" for o, xx in zip(ml_out, ml_src)], 8))
     for ln, o, cf in zip(ml_lines, ml_out, ml_conf):
         if not o or o.startswith(("err", "TIMEOUT")):
-            ctx.violation("multithreaded compression with a level change in mid-frame failed: %s" % (o or "no output")[:100], dict(kind="monitor", op=ln[:400000], result=o[:300]))
+            ctx.violation("multithreaded compression with a level change in mid-frame failed: %s" % (o or "no output")[:100], dict(kind="monitor", op=ln[:40000000], result=o[:300]))
         elif not cf.startswith("ok"):
-            ctx.violation("frame emitted by worker threads with a level change in mid-frame is not valid / not conformant: %s" % cf[:300], dict(kind="monitor", op=ln[:400000], conform=cf[:600]))
+            ctx.violation("frame emitted by worker threads with a level change in mid-frame is not valid / not conformant: %s" % cf[:300], dict(kind="monitor", op=ln[:40000000], conform=cf[:600]))
     # ASan+UBSan build (uninstrumented harness) on a sample: tables kept between frames of one context
     sops = [o for o in ops if int(o.split()[3]) <= 3000000][:12 if quick else 300] + [o for o in ops[-8:] if "163=" in o]
     hx_san = build.link("zvh_mt", ["zvh_mt.c"], "san", exclude=("pool.c", "zstdmt_compress.c"), extra=["-DZV_NOTRACE"])
